@@ -56,6 +56,12 @@ def cells(tier):
                         [["unlock", {"after": [1, 1], "after_done": True}], M("N", 2, 2)]],
               outcomes=["ret"], ecb="slow", ccb="plain", slow_ids=[0, 1])
     out.append(cell("s2 M2/2|gac@idle|cancel-the-close|unlock,N2/2 slowecb", sc, MON))
+    # a pool that is locked (or closing) after the call was accepted, then grown: the call uses the new places
+    for old, new in [(1, 3), (0, 2)]:
+        sc = scen(pool(old), [[M("M", 3, 2)], [LOCK, ["set_size", new]]], outcomes=["ret"])
+        out.append(cell(f"s{old}->{new} M3/2|lock,grow", sc, MON))
+    sc = scen(pool(1), [[M("M", 3, 2)], [GAC], [["set_size", 2]]], outcomes=["ret"])
+    out.append(cell("s1->2 M3/2|gac|grow", sc, MON))
     # two pools in one loop, each running a map; a task of one is cancelled (also before its first step)
     for size in [2, "inf"]:
         if not q:
